@@ -105,6 +105,10 @@ func verifTraceStart(b *builder, p *Package) {
 }
 
 func verifTraceEnqueue(b *builder, fn *Function) {
+	// scheduling point inside the critical section of the memo table (shared functions are
+	// enqueued under the table's mutex): builders queue up behind the mutex, so lookups of one
+	// key arrive back to back
+	verifYield()
 	verifRecord(false, func(e *VerifEvent) {
 		e.Kind, e.Builder, e.Task, e.Fn, e.FnTask = "enqueue", verifBuilderID(b), verifTaskID(b.buildshared), fn, verifTaskID(fn.buildshared)
 	})
